@@ -30,6 +30,46 @@ theorem transmissions_le_maxAttempts (cfg : Cfg) (script : List (Fault × Dur)) 
   have := loop_attempts_le cfg (effMax cfg) script t0 0 (t0 + cfg.timeout) (effMax_pos cfg)
   simpa [run] using this
 
+/-! ### what the peer sees
+
+The model counts ATTEMPTS (calls of `HostClient.do` → `RoundTrip`).  That this bounds what is put on the wire rests on
+one assumption about `RoundTrip`, made explicit here as a hypothesis: one call writes the request to a connection at
+most once — and not at all when it fails before writing — whether the connection was freshly dialled or taken from the
+idle pool.  `wire a` is the number of request heads the peer receives because of attempt `a`.  The harness ties the
+hypothesis on every case: heads counted by the peer (over all connections, fresh and reused) ≤ transmitting attempts
+of the model (`one-transmission-per-attempt`). -/
+
+def OneWirePerAttempt (wire : Attempt → Nat) (t : Trace) : Prop :=
+  ∀ a ∈ t.attempts, wire a ≤ (if a.fault.transmits then 1 else 0)
+
+/-- request heads seen by the peer for one `Do` call -/
+def wireTotal (wire : Attempt → Nat) (t : Trace) : Nat := (t.attempts.map wire).sum
+
+theorem sum_le_length (l : List Attempt) (wire : Attempt → Nat)
+    (h : ∀ a ∈ l, wire a ≤ (if a.fault.transmits then 1 else 0)) :
+    (l.map wire).sum ≤ (l.filter fun a => a.fault.transmits).length := by
+  induction l with
+  | nil => simp
+  | cons x xs ih =>
+    have hx := h x (List.mem_cons_self)
+    have hxs := ih (fun a ha => h a (List.mem_cons_of_mem _ ha))
+    simp only [List.map_cons, List.sum_cons, List.filter_cons]
+    by_cases ht : x.fault.transmits = true
+    · simp only [ht, if_true] at hx ⊢
+      simp only [List.length_cons]; omega
+    · simp only [ht, Bool.false_eq_true, if_false] at hx ⊢
+      omega
+
+/-- Under that hypothesis the peer receives the request at most MaxIdemponentCallAttempts times (5 by default) -/
+theorem wire_transmissions_le_maxAttempts (cfg : Cfg) (script : List (Fault × Dur)) (t0 : Nat) (wire : Attempt → Nat)
+    (hw : OneWirePerAttempt wire (run cfg script t0)) :
+    wireTotal wire (run cfg script t0) ≤ effMax cfg := by
+  have h1 := sum_le_length (run cfg script t0).attempts wire hw
+  have h2 := transmissions_le_maxAttempts cfg script t0
+  unfold Trace.transmissions at h2
+  unfold wireTotal
+  omega
+
 /-- A request whose method is not GET, HEAD or PUT is attempted at most once when no RetryIf / RetryIfErr /
     RetryIfErrUpstream callback is configured. -/
 theorem non_idempotent_at_most_once_without_callback (cfg : Cfg) (script : List (Fault × Dur)) (t0 : Nat)
@@ -42,6 +82,17 @@ theorem non_idempotent_at_most_once_without_callback (cfg : Cfg) (script : List 
     List.getElem?_eq_getElem (by omega)
   have := (loop_nonlast cfg (effMax cfg) script t0 0 (t0 + cfg.timeout) 0 _ h0 hl).2.2.2
   simp [callback, h1, h2, h3, hm] at this
+
+/-- … and, under the one-write-per-RoundTrip hypothesis, the peer receives such a request at most once -/
+theorem wire_non_idempotent_at_most_once (cfg : Cfg) (script : List (Fault × Dur)) (t0 : Nat) (wire : Attempt → Nat)
+    (hw : OneWirePerAttempt wire (run cfg script t0))
+    (h1 : cfg.retryIf = none) (h2 : cfg.retryIfErr = none) (h3 : cfg.retryIfErrUpstream = none)
+    (hm : cfg.idempotent = false) : wireTotal wire (run cfg script t0) ≤ 1 := by
+  have ha := sum_le_length (run cfg script t0).attempts wire hw
+  have hb := non_idempotent_at_most_once_without_callback cfg script t0 h1 h2 h3 hm
+  have hc := List.length_filter_le (fun a : Attempt => a.fault.transmits) (run cfg script t0).attempts
+  unfold wireTotal
+  omega
 
 /-- the only way such a request is attempted again is that a callback said so -/
 theorem second_attempt_needs_callback_or_idempotent (cfg : Cfg) (script : List (Fault × Dur)) (t0 : Nat)
@@ -61,6 +112,15 @@ theorem bodystream_never_retried (cfg : Cfg) (script : List (Fault × Dur)) (t0 
     List.getElem?_eq_getElem (by omega)
   have := (loop_nonlast cfg (effMax cfg) script t0 0 (t0 + cfg.timeout) 0 _ h0 hl).2.2.1
   rw [hb] at this; cases this
+
+theorem wire_bodystream_at_most_once (cfg : Cfg) (script : List (Fault × Dur)) (t0 : Nat) (wire : Attempt → Nat)
+    (hw : OneWirePerAttempt wire (run cfg script t0)) (hb : cfg.hasBodyStream = true) :
+    wireTotal wire (run cfg script t0) ≤ 1 := by
+  have ha := sum_le_length (run cfg script t0).attempts wire hw
+  have hb' := bodystream_never_retried cfg script t0 hb
+  have hc := List.length_filter_le (fun a : Attempt => a.fault.transmits) (run cfg script t0).attempts
+  unfold wireTotal
+  omega
 
 /-- An attempt is followed by another one only if RoundTrip reported `retry = true`. -/
 theorem only_retryable_faults_are_retried (cfg : Cfg) (script : List (Fault × Dur)) (t0 : Nat) (i : Nat) (a : Attempt)
@@ -127,6 +187,10 @@ example : (run { base with retryIfErr := some fun _ => (false, true), retryIfErr
 example : (run { base with hasBodyStream := true } (List.replicate 9 eof) 0).attempts.length = 1 := by decide
 example : (run { base with retryIf := some fun _ => true } [eof, (.tooLarge, .ns 1), eof] 0).attempts.map (·.fault)
     = [.readEOF, .tooLarge] := by decide
+/-- the hypothesis is satisfiable and the bound is met: one head per transmitting attempt gives exactly 5 -/
+example : OneWirePerAttempt (fun a => if a.fault.transmits then 1 else 0) (run base (List.replicate 9 eof) 0) ∧
+    wireTotal (fun a => if a.fault.transmits then 1 else 0) (run base (List.replicate 9 eof) 0) = 5 :=
+  ⟨fun _ _ => Nat.le_refl _, by decide⟩
 /-- timeout 10: attempts of 4 time units each start at 0, 4, 8; then ErrTimeout at the loop head -/
 example : ((run { base with timeout := 10 } (List.replicate 9 (.readEOF, .ns 4)) 0).attempts.map (·.start),
     (run { base with timeout := 10 } (List.replicate 9 (.readEOF, .ns 4)) 0).err) = ([0, 4, 8], .timeout) := by decide
